@@ -817,12 +817,12 @@ def main(tier, seed):
     endu = gen_endurance(hs, rng, thorough)
     execute("endurance", hs.exe, [(500000 + i, ops_) for i, ops_ in enumerate(endu)])
     # 4b. cold starts: one fresh process per plan, first call already under an allocation failure
-    cold = gen_cold(hs, rng, int(os.environ.get("VERIF_C20_COLD", "8000" if thorough else "1200")), alloc_counts)
+    cold = gen_cold(hs, rng, int(os.environ.get("VERIF_C20_COLD", "8000" if thorough else "900")), alloc_counts)
     execute("cold-starts", hs.exe, [(600000 + i, ops_) for i, ops_ in enumerate(cold)], fresh=True)
     # 4c. two threads used one after the other; calls at static-destruction time (fresh process per plan)
-    thr = gen_threads(hs, rng, int(os.environ.get("VERIF_C20_THREADS", "6000" if thorough else "700")))
+    thr = gen_threads(hs, rng, int(os.environ.get("VERIF_C20_THREADS", "6000" if thorough else "500")))
     execute("two-threads", hs.exe, [(700000 + i, ops_) for i, ops_ in enumerate(thr)], fresh=True)
-    axp = gen_at_exit(hs, rng, int(os.environ.get("VERIF_C20_ATEXIT", "6000" if thorough else "700")))
+    axp = gen_at_exit(hs, rng, int(os.environ.get("VERIF_C20_ATEXIT", "6000" if thorough else "500")))
     execute("at-exit", hs.exe, [(800000 + i, ops_) for i, ops_ in enumerate(axp)], fresh=True)
     # 4d. true concurrency under ThreadSanitizer
     pairs = gen_pairs(ht, rng, thorough)
